@@ -946,6 +946,10 @@ impl<W: Write> Interp<W> {
                     self.exec(&json!({"op": "drop", "q": id}));
                 }
             }
+            // independence of clones: nothing done to the clones may have touched the source
+            if !probes.is_empty() {
+                self.witness(0, &wit);
+            }
         }
     }
 }
